@@ -5,6 +5,12 @@
  *
  *   VERIF_HASH_SEED=<u64>   bytes returned by getrandom()/getentropy()
  *   VERIF_CLOCK=<seconds>   CLOCK_REALTIME / time() / gettimeofday()
+ *   VERIF_WRITE_FAULT=<kind>:<k>   the k-th write()/writev() to a regular file (k >= 1):
+ *        enospc  fails with ENOSPC (disk full), and so does every later one
+ *        eio     fails once with EIO
+ *        eintr   fails once with EINTR (must be retried by the caller)
+ *        short   writes only the first half of the buffer (legal; the caller must continue)
+ *   VERIF_FAULT_LOG=<path>  a line is appended whenever a write fault fires
  *
  * Without the variables the real functions are used. */
 #define _GNU_SOURCE
@@ -13,7 +19,11 @@
 #include <stdint.h>
 #include <stdlib.h>
 #include <string.h>
+#include <fcntl.h>
+#include <stdio.h>
+#include <sys/stat.h>
 #include <sys/time.h>
+#include <sys/uio.h>
 #include <sys/types.h>
 #include <time.h>
 #include <unistd.h>
@@ -92,4 +102,88 @@ int gettimeofday(struct timeval *tv, void *tz) {
     if (have_clock) { if (tv) { tv->tv_sec = clock_s; tv->tv_usec = 123456; } return 0; }
     int (*real)(struct timeval *, void *) = dlsym(RTLD_NEXT, "gettimeofday");
     return real(tv, tz);
+}
+
+
+/* ---- write faults on regular files ---------------------------------------------------------- */
+
+static int wf_kind = -1; /* -1 unread, 0 none, 1 enospc, 2 eio, 3 eintr, 4 short */
+static long wf_at = 0;
+static long wf_count = 0;
+
+static void wf_init(void) {
+    if (wf_kind >= 0) return;
+    wf_kind = 0;
+    const char *s = getenv("VERIF_WRITE_FAULT");
+    if (!s) return;
+    const char *colon = strchr(s, ':');
+    if (!colon) return;
+    wf_at = strtol(colon + 1, 0, 10);
+    if (wf_at < 1) return;
+    if (!strncmp(s, "enospc", 6)) wf_kind = 1;
+    else if (!strncmp(s, "eio", 3)) wf_kind = 2;
+    else if (!strncmp(s, "eintr", 5)) wf_kind = 3;
+    else if (!strncmp(s, "short", 5)) wf_kind = 4;
+}
+
+static void wf_log(const char *what, int fd, size_t len) {
+    const char *p = getenv("VERIF_FAULT_LOG");
+    if (!p) return;
+    int (*real_open)(const char *, int, ...) = dlsym(RTLD_NEXT, "open");
+    ssize_t (*real_write)(int, const void *, size_t) = dlsym(RTLD_NEXT, "write");
+    int lfd = real_open(p, O_WRONLY | O_CREAT | O_APPEND, 0644);
+    if (lfd < 0) return;
+    char line[128];
+    int n = snprintf(line, sizeof line, "%s write#%ld fd=%d len=%zu\n", what, wf_count, fd, len);
+    if (n > 0) real_write(lfd, line, (size_t)n);
+    close(lfd);
+}
+
+/* 0: pass through; 1: fail with errno set; 2: shorten to *len */
+static int wf_decide(int fd, size_t *len) {
+    wf_init();
+    if (!wf_kind || fd <= 2 || *len == 0) return 0;
+    struct stat st;
+    if (fstat(fd, &st) != 0 || !S_ISREG(st.st_mode)) return 0;
+    wf_count++;
+    switch (wf_kind) {
+    case 1:
+        if (wf_count >= wf_at) { wf_log("enospc", fd, *len); errno = ENOSPC; return 1; }
+        return 0;
+    case 2:
+        if (wf_count == wf_at) { wf_log("eio", fd, *len); errno = EIO; return 1; }
+        return 0;
+    case 3:
+        if (wf_count == wf_at) { wf_log("eintr", fd, *len); errno = EINTR; return 1; }
+        return 0;
+    case 4:
+        if (wf_count == wf_at && *len > 1) { wf_log("short", fd, *len); *len = *len / 2; return 2; }
+        return 0;
+    }
+    return 0;
+}
+
+ssize_t write(int fd, const void *buf, size_t len) {
+    ssize_t (*real)(int, const void *, size_t) = dlsym(RTLD_NEXT, "write");
+    size_t n = len;
+    int d = wf_decide(fd, &n);
+    if (d == 1) return -1;
+    return real(fd, buf, n);
+}
+
+ssize_t writev(int fd, const struct iovec *iov, int cnt) {
+    ssize_t (*real)(int, const struct iovec *, int) = dlsym(RTLD_NEXT, "writev");
+    size_t total = 0;
+    for (int i = 0; i < cnt; i++) total += iov[i].iov_len;
+    size_t n = total;
+    int d = wf_decide(fd, &n);
+    if (d == 1) return -1;
+    if (d == 2 && cnt > 0) {
+        /* a short count: only (part of) the first buffer */
+        ssize_t (*real_write)(int, const void *, size_t) = dlsym(RTLD_NEXT, "write");
+        size_t k = iov[0].iov_len < n ? iov[0].iov_len : n;
+        if (k == 0) k = iov[0].iov_len;
+        return real_write(fd, iov[0].iov_base, k);
+    }
+    return real(fd, iov, cnt);
 }
